@@ -725,8 +725,8 @@ func (db *SpecDB) LoadSpecFile(path, pkg string, stripPrefix bool) error {
 			}
 			for _, part := range splitTop(s.rest) {
 				part = strings.TrimSpace(part)
-				if part == "*" {
-					target.Modifies = append(target.Modifies, Clause{Text: "*", Line: s.n, File: path})
+				if part == "*" || part == "pointees" {
+					target.Modifies = append(target.Modifies, Clause{Text: part, Line: s.n, File: path})
 					continue
 				}
 				e, err := ParseSpecExpr(part)
